@@ -196,7 +196,7 @@ class Conv2dModuleHelper(ModuleHelper):
         """Get formmated gradients (weight and bias) of module."""
         grad = cast(
             torch.Tensor,
-            self.module.weight.grad.view(  # type: ignore
+            self.module.weight.grad.reshape(  # type: ignore
                 self.module.weight.grad.size(0),  # type: ignore
                 -1,
             ),
